@@ -235,5 +235,9 @@ def wellformed_twins(n):
         ("scores_neg", {"scores": [-3 * i - 1 for i in idx]}),
         ("scores_mixed", {"scores": [(float(i) if i % 2 else i) for i in idx]}),
         ("scores_repeat", {"scores": [i // 2 for i in idx]}),
+        # an empty selector is "not given" by the property's own definition ("given (non-empty)")
+        ("ranks_with_empty_scores", {"ranks": [i + 1 for i in idx], "scores": []}),
+        ("scores_with_empty_ranks", {"scores": [i + 1 for i in idx], "ranks": []}),
+        ("ranks_bool_zero_neg_with_empty_scores", {"ranks": [[True, -1.5, 0][i % 3] for i in idx], "scores": []}),
     ]
     return tw
